@@ -2,9 +2,13 @@
 from pyvc.contract import Contract as C
 
 NOTIF = "self.$n_notified == old(self.$n_notified) + 1"
-FROZEN = ("all(implies(old(computed(f)) and f is not self, f.$n_notified == old(f.$n_notified)) "
+FROZEN = ("all(implies(old(alloc(f)) and old(computed(f)) and f is not self, f.$n_notified == old(f.$n_notified)) "
           "for f in objs(FutureBase))")
 
+
+# E5: unknown code does not ask an item for its value while its batch is completing its items
+NOWIN = "not in_window(self)"
+KEEP = "self.$n_flush_body == old(self.$n_flush_body)"
 
 # a constructor runs on a fresh object (modelled with the pending defaults, see common.fresh_future)
 FRESH = ["self._value is _none", "self._error is None"]
@@ -18,13 +22,13 @@ def register(reg, repo):
               post=["self._value is _none", "self._error is None",
                     "only(self, '_value', '_error', '_in_repr', 'on_computed')",
                     "fresh(self.on_computed)"],
-              xpost=None,
-              note="initialises a pending future"))
+              xpost=None, two_state=False,
+              note="initialises a pending future (constructors are exempt from the two-state invariant: self is new)"))
 
     reg.add(C("futures.FutureBase.is_computed", modifies=[],
               post=["result == computed(self)"], xpost=None, returns_type="bool"))
 
-    reg.add(C("futures.FutureBase.value", modifies="*",
+    reg.add(C("futures.FutureBase.value", modifies="*", requires=[NOWIN], pure_when="computed(self)",
               post=["computed(self)", "self._error is None", "result is self._value",
                     "implies(old(computed(self)), result is old(self._value))",
                     "implies(old(computed(self)), no_callout())"],
@@ -33,51 +37,64 @@ def register(reg, repo):
                      "implies(old(computed(self)), no_callout())"],
               labels={("post", 4): "no-recompute", ("xpost", 2): "no-recompute"}))
 
-    reg.add(C("futures.FutureBase.__call__", modifies="*",
+    reg.add(C("futures.FutureBase.__call__", modifies="*", requires=[NOWIN], pure_when="computed(self)",
               post=["computed(self)", "self._error is None", "result is self._value",
                     "implies(old(computed(self)), result is old(self._value))"],
               xpost=["implies(old(computed(self)), exc is old(self._error))",
                      "implies(old(computed(self)), old(self._error) is not None)"]))
 
-    reg.add(C("futures.FutureBase.error", modifies="*",
+    reg.add(C("futures.FutureBase.error", modifies="*", requires=[NOWIN], pure_when="computed(self)",
               post=["computed(self)", "result is self._error",
                     "implies(old(computed(self)), result is old(self._error))",
+                    "implies(isinstance(self, BatchBase) and not old(computed(self)), self.$n_notified >= 1 and self.$n_flush_body == old(self.$n_flush_body) + 1)",
                     "implies(old(computed(self)), no_callout())"],
-              xpost=["not old(computed(self))"],
-              labels={("post", 3): "no-recompute"}))
+              xpost=["not old(computed(self))", "not isinstance(self, BatchBase)"],
+              labels={("post", 4): "no-recompute"}))
 
     reg.add(C("futures.FutureBase.set_value", modifies="*",
               requires=["value is not _none"],
               post=["not old(computed(self))", "computed(self)", "self._value is value",
-                    "self._error is None", NOTIF],
+                    "self._error is None", NOTIF, KEEP],
               xpost=["old(computed(self))", "isinstance(exc, FutureIsAlreadyComputed)",
-                     "unchanged('_value', '_error', '$n_notified')", "no_callout()"],
+                     "unchanged('_value', '_error', '$n_notified', '$n_flush_body')", "no_callout()"],
               labels={("xpost", 2): "changes-nothing", ("xpost", 3): "changes-nothing-no-callout",
                       ("post", 4): "notified-once"}))
 
     reg.add(C("futures.FutureBase.set_error", modifies="*",
               post=["not old(computed(self))", "computed(self)", "self._error is error",
-                    "self._value is None", NOTIF],
+                    "self._value is None", NOTIF, KEEP],
               xpost=["old(computed(self))", "isinstance(exc, FutureIsAlreadyComputed)",
-                     "unchanged('_value', '_error', '$n_notified')", "no_callout()"],
+                     "unchanged('_value', '_error', '$n_notified', '$n_flush_body')", "no_callout()"],
               labels={("xpost", 2): "changes-nothing", ("xpost", 3): "changes-nothing-no-callout",
                       ("post", 4): "notified-once"}))
 
     reg.add(C("futures.FutureBase.reset_unsafe", modifies=["_value", "_error"],
               post=["updated('_value', self, _none)", "updated('_error', self, None)"],
-              xpost=None, two_state=False,
-              note="explicit escape hatch: exempt from T1 (E1: unknown code does not call it)"))
+              xpost=None, two_state=False, inv_exit=False,
+              note="explicit escape hatch: exempt from T1 and from the ghost part of I-Fut (E1: unknown code does not call it)"))
 
+    reg.add(C("futures.FutureBase._computed!virtual", params=["self"], kind="method", modifies="*", trusted=True,
+              requires=["computed(self)", "self.$n_notified == 0"],
+              post=[NOTIF, FROZEN, "implies(isinstance(self, BatchBase), items_done(self))"], xpost=None,
+              labels={"ts_skip": ("notif",)},
+              note="dynamic dispatch of self._computed(): every override (FutureBase, AsyncTask, BatchBase) "
+                   "is verified against a contract that refines this one"))
     reg.add(C("futures.FutureBase._computed", modifies="*",
-              requires=["computed(self)"],
+              requires=["computed(self)", "self.$n_notified == 0",
+                        "implies(isinstance(self, BatchBase), items_done(self))"],
               post=[NOTIF, FROZEN], xpost=None,
               labels={"ts_skip": ("notif",), ("post", 0): "notified-once"},
               note="the announcement: requires the outcome to be visible already"))
 
-    reg.add(C("futures.FutureBase._compute", modifies="*",
-              requires=["not computed(self)"],
-              post=["computed(self)"], xpost=["True"],
-              note="abstract; overrides refine this"))
+    reg.add(C("futures.FutureBase._compute!virtual", params=["self"], kind="method", modifies="*", trusted=True,
+              requires=["not computed(self)", NOWIN],
+              post=["computed(self)",
+                    "implies(isinstance(self, BatchBase), self.$n_notified >= 1 and self.$n_flush_body == old(self.$n_flush_body) + 1)"],
+              xpost=["not isinstance(self, BatchBase)"],
+              note="dynamic dispatch of self._compute(); overrides (Future, AsyncTask, BatchBase, BatchItemBase) refine this"))
+    reg.add(C("futures.FutureBase._compute", modifies=[],
+              post=["False"], xpost=["isinstance(exc, NotImplementedError)"],
+              note="abstract body"))
 
     reg.add(C("futures.FutureBase.raise_if_error", modifies=[],
               post=["self._error is None"],
@@ -87,7 +104,7 @@ def register(reg, repo):
               modifies=["_value", "_error", "_in_repr", "on_computed", "_value_provider", "$alloc"],
               post=["self._value is _none", "self._error is None", "self._value_provider is value_provider",
                     "only(self, '_value', '_error', '_in_repr', 'on_computed', '_value_provider')"],
-              xpost=None))
+              xpost=None, two_state=False))
 
     reg.add(C("futures.Future._compute", modifies="*",
               requires=["not computed(self)"],
